@@ -2,12 +2,20 @@ import Mathlib.Tactic.Ring
 import Mathlib.Tactic.Linarith
 import Mathlib.Tactic.FieldSimp
 import Mathlib.Algebra.Order.Field.Rat
+import Mathlib.Analysis.SpecialFunctions.Trigonometric.Inverse
+import Mathlib.Analysis.SpecialFunctions.Pow.Real
+import PhreeqcVerif.Model.PengRobinson
 /-! Algebra behind `Properties/C19.lean`: Cardano's formulas over an ordered field (here `Rat`; only ordered-field
 facts are used), and sums of lists as the C++ loops accumulate them. -/
+set_option linter.style.haveILetI false
+set_option warn.classDefReducibility false
 namespace PhreeqcVerif.GasLemmas
 
+section ordered_field
+variable {K : Type} [Field K] [LinearOrder K] [IsStrictOrderedRing K]
+
 /-- cubing is injective in an ordered field -/
-theorem cube_inj (x y : Rat) (h : x * x * x = y * y * y) : x = y := by
+theorem cube_inj (x y : K) (h : x * x * x = y * y * y) : x = y := by
   have h1 : (x - y) * (x * x + x * y + y * y) = 0 := by ring_nf; ring_nf at h; linarith
   rcases mul_eq_zero.mp h1 with h2 | h2
   · linarith
@@ -16,14 +24,14 @@ theorem cube_inj (x y : Rat) (h : x * x * x = y * y * y) : x = y := by
     rw [hx, hy]
 
 /-- substitution `V = t − r1/3` turns the cubic into the depressed cubic `t³ + rp t + rq` -/
-theorem depress (r1 r2 r3 t : Rat) :
+theorem depress (r1 r2 r3 t : K) :
     let v := t - r1 / 3
     v * v * v + r1 * (v * v) + r2 * v + r3
       = t * t * t + (r2 - r1 * r1 / 3) * t + ((2 * (r1 * r1) * r1 - 9 * r1 * r2) / 27 + r3) := by
   intro v; simp only [v]; ring
 
 /-- Cardano, sum of two cube roots: `u³ = A`, `v³ = B`, `A + B = −rq`, `A·B = −rp³/27` -/
-theorem cardano_sum (rp rq A B u v : Rat) (hu : u * u * u = A) (hv : v * v * v = B)
+theorem cardano_sum (rp rq A B u v : K) (hu : u * u * u = A) (hv : v * v * v = B)
     (hs : A + B = -rq) (hp : A * B = -(rp * rp * rp) / 27) :
     (u + v) * (u + v) * (u + v) + rp * (u + v) + rq = 0 := by
   have huv : u * v = -rp / 3 := by
@@ -37,7 +45,7 @@ theorem cardano_sum (rp rq A B u v : Rat) (hu : u * u * u = A) (hv : v * v * v =
   rw [this]; linarith
 
 /-- Cardano, second form: `w³ = B ≠ 0`, `t = w − rp/(3w)` -/
-theorem cardano_quot (rp rq A B w : Rat) (hw : w * w * w = B) (hB : B ≠ 0)
+theorem cardano_quot (rp rq A B w : K) (hw : w * w * w = B) (hB : B ≠ 0)
     (hs : A + B = -rq) (hp : A * B = -(rp * rp * rp) / 27) :
     let t := w - rp / (3 * w)
     t * t * t + rp * t + rq = 0 := by
@@ -53,7 +61,7 @@ theorem cardano_quot (rp rq A B w : Rat) (hw : w * w * w = B) (hB : B ≠ 0)
   exact cardano_sum rp rq B A w (-rp / (3 * w)) hw hv (by linarith) (by rw [mul_comm]; exact hp)
 
 /-- trigonometric form: `ri² = −rp³/27`, `ri ≠ 0`, `m³ = ri`, `cos θ = −rq/2/ri = 4c³ − 3c` -/
-theorem cardano_trig (rp rq ri m c ct : Rat) (hri : ri * ri = -(rp * rp * rp) / 27) (h0 : ri ≠ 0)
+theorem cardano_trig (rp rq ri m c ct : K) (hri : ri * ri = -(rp * rp * rp) / 27) (h0 : ri ≠ 0)
     (hm : m * m * m = ri) (hct : ct = -rq / 2 / ri) (h3 : ct = 4 * (c * c * c) - 3 * c) :
     let t := 2 * m * c
     t * t * t + rp * t + rq = 0 := by
@@ -68,12 +76,14 @@ theorem cardano_trig (rp rq ri m c ct : Rat) (hri : ri * ri = -(rp * rp * rp) / 
   rw [e, hm, ← h3, hct]; field_simp; ring
 
 /-- `rz < 0` forces `ri ≠ 0` when `ri² = −rp³/27` -/
-theorem ri_ne_zero (rp rq ri : Rat) (hrz : rq * rq / 4 + rp * rp * rp / 27 < 0)
+theorem ri_ne_zero (rp rq ri : K) (hrz : rq * rq / 4 + rp * rp * rp / 27 < 0)
     (hri : ri * ri = -(rp * rp * rp) / 27) : ri ≠ 0 := by
   intro h0
   rw [h0] at hri
   have : 0 ≤ rq * rq / 4 := by nlinarith [mul_self_nonneg rq]
   linarith
+
+end ordered_field
 
 /-! ### running sums -/
 
@@ -100,5 +110,226 @@ theorem sum_map_div (l : List Rat) (c : Rat) :
   induction l with
   | nil => simp
   | cons x xs ih => simp only [List.map_cons, List.sum_cons]; rw [ih]; ring
+
+/-! ### facts about the model used by `Properties/C19.lean` -/
+open PhreeqcVerif NumOps PR
+
+theorem lnPhi_bounds (f : TransFns Rat) (rt b a p v bi aa2i : Rat) :
+    letI := ratOps f
+    (-46 / 10 : Rat) ≤ lnPhi rt b a p v bi aa2i ∧ lnPhi rt b a p v bi aa2i ≤ 444 / 100 := by
+  simp only [lnPhi, clampPhi, lnPhiLo, lnPhiHi, NumOps.lit, NumOps.ofRat, id]
+  grind
+
+theorem isZero_iff (f : TransFns Rat) (x : Rat) : letI := ratOps f; isZero x = true ↔ x = 0 := by
+  simp only [isZero, NumOps.lit, NumOps.ofRat, id]
+  grind
+
+theorem foldl_skip_zero (f : TransFns Rat) (l : List Rat) (init : Rat) :
+    letI := ratOps f
+    l.foldl (fun acc m => if isZero m then acc else acc + m) init = init + l.sum := by
+  letI := ratOps f
+  induction l generalizing init with
+  | nil => simp
+  | cons x xs ih =>
+    simp only [List.foldl_cons, List.sum_cons]
+    by_cases hz : isZero x = true
+    · rw [if_pos hz, ih, (isZero_iff f x).mp hz]; ring
+    · rw [if_neg hz, ih]; ring
+
+theorem fractions_sum (f : TransFns Rat) (ms xs : List Rat) :
+    letI := ratOps f
+    fractions ms = some xs → xs.sum = 1 ∧ xs.length = ms.length := by
+  letI := ratOps f
+  intro h
+  match ms, h with
+  | [m], h =>
+    simp only [fractions, Option.some.injEq] at h
+    subst h
+    exact ⟨by show (1 : Rat) + 0 = 1; decide +kernel, rfl⟩
+  | [], h =>
+    simp only [fractions, List.foldl_nil] at h
+    have : isZero (lit 0 : Rat) = true := (isZero_iff f _).mpr rfl
+    simp [this] at h
+  | a :: b :: rest, h =>
+    simp only [fractions] at h
+    rw [foldl_skip_zero f] at h
+    split at h
+    · simp at h
+    · rename_i hz
+      simp only [Option.some.injEq] at h
+      subst h
+      have hne : (lit 0 : Rat) + (a :: b :: rest).sum ≠ 0 := by
+        intro h0; exact hz ((isZero_iff f _).mpr h0)
+      refine ⟨?_, by simp⟩
+      rw [sum_map_div]
+      have : (lit 0 : Rat) + (a :: b :: rest).sum = (a :: b :: rest).sum := by
+        show (0 : Rat) + _ = _; ring
+      rw [this] at hne ⊢
+      exact div_self hne
+
+theorem compOut_spec (f : TransFns Rat) (rt b a p vm : Rat) (c : Comp Rat) (aa2 : Rat) :
+    letI := ratOps f
+    (compOut rt b a p vm c aa2).x = c.x ∧ (compOut rt b a p vm c aa2).p = c.x * p ∧
+    (-46 / 10 : Rat) ≤ (compOut rt b a p vm c aa2).lnphi ∧ (compOut rt b a p vm c aa2).lnphi ≤ 444 / 100 := by
+  letI := ratOps f
+  unfold compOut
+  by_cases hz : isZero c.x = true
+  · rw [if_pos hz]
+    have hx : c.x = 0 := (isZero_iff f c.x).mp hz
+    refine ⟨rfl, ?_, by show (-46/10 : Rat) ≤ 0; decide +kernel, by show (0 : Rat) ≤ 444/100; decide +kernel⟩
+    show (0 : Rat) = c.x * p
+    rw [hx]; simp
+  · rw [if_neg hz]
+    exact ⟨rfl, rfl, (lnPhi_bounds f _ _ _ _ _ _ _).1, (lnPhi_bounds f _ _ _ _ _ _ _).2⟩
+
+theorem mix_fold_length (f : TransFns Rat) (kf : String → String → Rat) (all l : List (Comp Rat)) (m0 : Mix Rat) :
+    letI := ratOps f
+    (l.foldl (fun (m : Mix Rat) ci =>
+      let r := mixInner kf ci all (m.asum, lit 0)
+      ({ bsum := m.bsum + ci.x * ci.b, asum := r.1, aa2 := m.aa2 ++ [r.2] } : Mix Rat)) m0).aa2.length
+      = m0.aa2.length + l.length := by
+  letI := ratOps f
+  induction l generalizing m0 with
+  | nil => simp
+  | cons c cs ih => simp only [List.foldl_cons]; rw [ih]; simp; omega
+
+theorem mix_aa2_length (f : TransFns Rat) (kf : String → String → Rat) (cs : List (Comp Rat)) :
+    letI := ratOps f
+    (mix kf cs).aa2.length = cs.length := by
+  letI := ratOps f
+  unfold mix
+  rw [mix_fold_length f kf cs cs]; simp
+
+theorem comps_x (f : TransFns Rat) (tk : Rat) (gs : List (Gas Rat)) (xs : List Rat) (h : xs.length ≤ gs.length) :
+    letI := ratOps f
+    (comps tk gs xs).map (·.x) = xs := by
+  letI := ratOps f
+  unfold comps
+  rw [List.map_map]
+  have : ((fun c : Comp Rat => c.x) ∘ fun (x : Gas Rat × Rat) =>
+      ({ name := x.1.name, a := prA gasR x.1.tc x.1.pc, b := prB gasR x.1.tc x.1.pc,
+         alpha := alphaT tk x.1.tc x.1.omega, x := x.2 } : Comp Rat)) = Prod.snd := by
+    funext x; rfl
+  rw [this]
+  exact List.map_snd_zip h
+
+
+/-! ### the real-number instance: `sqrt`, `x^(1/3)`, `cos`, `arccos` of Mathlib -/
+
+noncomputable def realFns : TransFns ℝ where
+  log10 := fun x => Real.log x / Real.log 10
+  exp10 := fun x => (10 : ℝ) ^ x
+  ln := Real.log
+  exp := Real.exp
+  sqrt := Real.sqrt
+  sinh := Real.sinh
+  cos := Real.cos
+  acos := Real.arccos
+  cbrt := fun x => x ^ ((3 : ℝ)⁻¹)
+  floor := fun x => (⌊x⌋ : ℝ)
+
+@[reducible] noncomputable def realOps : NumOps ℝ where
+  ofRat := fun q => (q : ℝ)
+  fns := realFns
+
+theorem cbrt_cube (x : ℝ) (h : 0 ≤ x) : x ^ ((3 : ℝ)⁻¹) * x ^ ((3 : ℝ)⁻¹) * x ^ ((3 : ℝ)⁻¹) = x := by
+  have := Real.rpow_inv_natCast_pow h (n := 3) (by norm_num)
+  have e : (x ^ ((3 : ℝ)⁻¹)) ^ 3 = x := by simpa using this
+  calc x ^ ((3 : ℝ)⁻¹) * x ^ ((3 : ℝ)⁻¹) * x ^ ((3 : ℝ)⁻¹) = (x ^ ((3 : ℝ)⁻¹)) ^ 3 := by ring
+    _ = x := e
+
+attribute [local instance] realOps
+
+theorem real_sqrt (x : ℝ) : (NumOps.sqrt x : ℝ) = Real.sqrt x := rfl
+theorem real_cbrt (x : ℝ) : (NumOps.cbrt x : ℝ) = x ^ ((3 : ℝ)⁻¹) := rfl
+theorem real_cos (x : ℝ) : (NumOps.cos x : ℝ) = Real.cos x := rfl
+theorem real_acos (x : ℝ) : (NumOps.acos x : ℝ) = Real.arccos x := rfl
+theorem real_lit (q : ℚ) : (NumOps.lit q : ℝ) = (q : ℝ) := rfl
+
+/-- with the real `sqrt`, `x^(1/3)`, `cos`, `arccos`, the volume the solver returns is a root of the cubic: all real
+coefficients, every branch, no hypothesis left -/
+theorem cubic_root_real (c : Cubic ℝ) :
+    c.eval (match c.branch with | 0 => rootA c | 1 => rootB c | _ => rootC c) = 0 := by
+  have l2 : (lit 2 : ℝ) = 2 := by rw [real_lit]; norm_num
+  have l3 : (lit 3 : ℝ) = 3 := by rw [real_lit]; norm_num
+  have l4 : (lit 4 : ℝ) = 4 := by rw [real_lit]; norm_num
+  have l9 : (lit 9 : ℝ) = 9 := by rw [real_lit]; norm_num
+  have l27 : (lit 27 : ℝ) = 27 := by rw [real_lit]; norm_num
+  have l0 : (lit 0 : ℝ) = 0 := by rw [real_lit]; norm_num
+  have hrp : c.rp = c.r2 - c.r1 * c.r1 / 3 := by simp only [Cubic.rp, l3]
+  have hrq : c.rq = (2 * (c.r1 * c.r1) * c.r1 - 9 * c.r1 * c.r2) / 27 + c.r3 := by simp only [Cubic.rq, l2, l9, l27]
+  have hrz : c.rz = c.rq * c.rq / 4 + c.rp * c.rp * c.rp / 27 := by simp only [Cubic.rz, l4, l27]
+  have hev : ∀ t : ℝ, c.eval (t - c.r1 / 3) = t * t * t + c.rp * t + c.rq := by
+    intro t; rw [hrp, hrq]; simp only [Cubic.eval]; ring
+  by_cases hz : (0 : ℝ) ≤ c.rz
+  · have hs : Real.sqrt c.rz * Real.sqrt c.rz = c.rz := Real.mul_self_sqrt hz
+    have hs' : Real.sqrt c.rz * Real.sqrt c.rz = c.rq * c.rq / 4 + c.rp * c.rp * c.rp / 27 := hs.trans hrz
+    have hsn : 0 ≤ Real.sqrt c.rz := Real.sqrt_nonneg _
+    by_cases hb : Real.sqrt c.rz + c.rq / 2 ≤ 0
+    · have hbr : c.branch = 0 := by
+        simp only [Cubic.branch, l0, l2, real_sqrt]
+        rw [if_pos hz, if_pos hb]
+      rw [hbr]
+      show c.eval (rootA c) = 0
+      have hA := cbrt_cube (Real.sqrt c.rz - c.rq / 2) (by linarith)
+      have hB := cbrt_cube (-Real.sqrt c.rz - c.rq / 2) (by linarith)
+      have key := cardano_sum c.rp c.rq _ _ _ _ hA hB (by ring) (by linear_combination (-1) * hs')
+      have : rootA c = ((Real.sqrt c.rz - c.rq / 2) ^ ((3 : ℝ)⁻¹) + (-Real.sqrt c.rz - c.rq / 2) ^ ((3 : ℝ)⁻¹)) - c.r1 / 3 := by
+        simp only [rootA, l2, l3, real_sqrt, real_cbrt]
+      rw [this, hev]; exact key
+    · have hbr : c.branch = 1 := by
+        simp only [Cubic.branch, l0, l2, real_sqrt]
+        rw [if_pos hz, if_neg hb]
+      rw [hbr]
+      show c.eval (rootB c) = 0
+      have hpos := not_le.mp hb
+      have hB := cbrt_cube (Real.sqrt c.rz + c.rq / 2) (by linarith)
+      have hw : (-((Real.sqrt c.rz + c.rq / 2) ^ ((3 : ℝ)⁻¹))) * (-((Real.sqrt c.rz + c.rq / 2) ^ ((3 : ℝ)⁻¹)))
+          * (-((Real.sqrt c.rz + c.rq / 2) ^ ((3 : ℝ)⁻¹))) = -(Real.sqrt c.rz + c.rq / 2) := by
+        have : ∀ y : ℝ, (-y) * (-y) * (-y) = -(y * y * y) := by intro y; ring
+        rw [this, hB]
+      have key := cardano_quot c.rp c.rq (Real.sqrt c.rz - c.rq / 2) (-(Real.sqrt c.rz + c.rq / 2)) _ hw
+        (by linarith) (by ring) (by linear_combination (-1) * hs')
+      have : rootB c = (-((Real.sqrt c.rz + c.rq / 2) ^ ((3 : ℝ)⁻¹))
+          - c.rp / (3 * -((Real.sqrt c.rz + c.rq / 2) ^ ((3 : ℝ)⁻¹)))) - c.r1 / 3 := by
+        simp only [rootB, l2, l3, real_sqrt, real_cbrt]
+      rw [this, hev]; exact key
+  · have hbr : c.branch = 2 := by
+      simp only [Cubic.branch, l0]
+      rw [if_neg hz]
+    rw [hbr]
+    show c.eval (rootC c) = 0
+    have hneg := not_le.mp hz
+    have hs0 : 0 < -(c.rp * c.rp * c.rp) / 27 := by
+      rw [hrz] at hneg; nlinarith [mul_self_nonneg c.rq]
+    have hs : Real.sqrt (-(c.rp * c.rp * c.rp) / 27) * Real.sqrt (-(c.rp * c.rp * c.rp) / 27) = -(c.rp * c.rp * c.rp) / 27 :=
+      Real.mul_self_sqrt hs0.le
+    have hri : 0 < Real.sqrt (-(c.rp * c.rp * c.rp) / 27) := Real.sqrt_pos.mpr hs0
+    have hm := cbrt_cube _ hri.le
+    -- |rq/2| < ri
+    have hlt : (c.rq / 2) * (c.rq / 2) < Real.sqrt (-(c.rp * c.rp * c.rp) / 27) * Real.sqrt (-(c.rp * c.rp * c.rp) / 27) := by
+      rw [hs]; rw [hrz] at hneg; nlinarith
+    have habs : |c.rq / 2| < Real.sqrt (-(c.rp * c.rp * c.rp) / 27) := by
+      apply abs_lt_of_sq_lt_sq _ hri.le
+      rw [sq, sq]; exact hlt
+    have hy1 : -1 ≤ -c.rq / 2 / Real.sqrt (-(c.rp * c.rp * c.rp) / 27) := by
+      rw [le_div_iff₀ hri]; have := (abs_lt.mp habs).2; linarith
+    have hy2 : -c.rq / 2 / Real.sqrt (-(c.rp * c.rp * c.rp) / 27) ≤ 1 := by
+      rw [div_le_iff₀ hri]; have := (abs_lt.mp habs).1; linarith
+    have hacos := Real.cos_arccos hy1 hy2
+    have h3 : Real.cos (Real.arccos (-c.rq / 2 / Real.sqrt (-(c.rp * c.rp * c.rp) / 27)))
+        = 4 * (Real.cos (Real.arccos (-c.rq / 2 / Real.sqrt (-(c.rp * c.rp * c.rp) / 27)) / 3)
+              * Real.cos (Real.arccos (-c.rq / 2 / Real.sqrt (-(c.rp * c.rp * c.rp) / 27)) / 3)
+              * Real.cos (Real.arccos (-c.rq / 2 / Real.sqrt (-(c.rp * c.rp * c.rp) / 27)) / 3))
+          - 3 * Real.cos (Real.arccos (-c.rq / 2 / Real.sqrt (-(c.rp * c.rp * c.rp) / 27)) / 3) := by
+      have := Real.cos_three_mul (Real.arccos (-c.rq / 2 / Real.sqrt (-(c.rp * c.rp * c.rp) / 27)) / 3)
+      rw [show 3 * (Real.arccos (-c.rq / 2 / Real.sqrt (-(c.rp * c.rp * c.rp) / 27)) / 3)
+            = Real.arccos (-c.rq / 2 / Real.sqrt (-(c.rp * c.rp * c.rp) / 27)) by ring] at this
+      rw [this]; ring
+    have key := cardano_trig c.rp c.rq _ _ _ _ hs hri.ne' hm hacos h3
+    have : rootC c = 2 * (Real.sqrt (-(c.rp * c.rp * c.rp) / 27)) ^ ((3 : ℝ)⁻¹)
+          * Real.cos (Real.arccos (-c.rq / 2 / Real.sqrt (-(c.rp * c.rp * c.rp) / 27)) / 3) - c.r1 / 3 := by
+      simp only [rootC, l2, l3, l27, real_sqrt, real_cbrt, real_cos, real_acos]
+    rw [this, hev]; exact key
 
 end PhreeqcVerif.GasLemmas
